@@ -18,13 +18,13 @@ TARGETS_Q = [["rel", ".."], ["rel", "..", ".."], ["rel", "..", "..", "s"], ["abs
 TARGETS_T = TARGETS_Q + [["rel", "d"]]
 
 
-def classify(esc, devmap):
-    """Is the real behaviour of an escaping archive the one DevLexicalOnly predicts?"""
+def classify(esc, devmap, devname):
+    """Is the real behaviour of an escaping archive the one the site's deviation predicts?"""
     d = devmap.get(F.arch_key(esc["arch"]))
     if d is None:
         return None
     if d["st"] == esc["real_st"] and F.same_snap(esc["real"], F.snap_of_nodes(d["t"])):
-        return "DevLexicalOnly"
+        return devname
     return None
 
 
@@ -37,11 +37,17 @@ def run(ctx):
     ideal = F.x_run(ctx, names, TARGETS, maxe, dev=(), emit=True, tag="MCX")
     if ideal.violated:
         raise vf.Infra("ideal FileAccess spec (part X) violates %s (specification error)" % ideal.violated)
-    # 2. sensitivity: the pinned tree's lexical-only checks must be caught by TLC
-    dv = F.x_run(ctx, NAMES_S, TARGETS_Q[:2], 3, dev=("DevLexicalOnly",), emit=False, expect_violation=True,
-                 kinds=("file", "sym"), tag="MCXdev")
-    if dv.violated != "NoEscape":
-        raise vf.Infra("DevLexicalOnly not detected by NoEscape (vacuous model): %s" % dv.violated)
+    # 2. sensitivity + the pinned extractors' relations: each deviation is explored by TLC (edges carry TLC's verdict
+    #    on NoEscape for the post-state); it must let some archive escape, else the model is vacuous
+    caught, devgraph, devesc = {}, {}, {}
+    for d in ("DevLexicalOnly", "DevNoLinkChecks"):
+        dr = F.x_run(ctx, NAMES_Q, TARGETS_Q, maxe, dev=(d,), emit=True, invs=False, tag="MCXd",
+                     kinds=("dir", "file", "sym") if d == "DevNoLinkChecks" else ("dir", "file", "sym", "hard"))
+        devesc[d] = [e["arch"] for e in dr.edges if e.get("esc")]
+        if not devesc[d]:
+            raise vf.Infra("%s lets nothing escape in the bounded model (vacuous model)" % d)
+        caught[d] = "NoEscape violated by %d archives, e.g. %s" % (len(devesc[d]), F.arch_text(min(devesc[d], key=len)))
+        devgraph[d] = F.XGraph(dr.edges)
     edges = list(ideal.edges)
     sim_edges = 0
     if not quick:
@@ -57,26 +63,51 @@ def run(ctx):
         edges += sim.edges
         ideal.distinct += e4.distinct
     cases = F.x_cases(edges)
-    # 3. replay every enumerated archive on the real UntarDirectory
-    summ, mism, escapes = F.x_replay(ctx, cases)
-    devmap = None
-    if escapes:
-        # what does the deviation predict for exactly the archives that escaped on the real code?
-        dr = F.x_run(ctx, NAMES_T, TARGETS, 6, dev=("DevLexicalOnly",), emit=True, invs=False, tag="MCXrel",
-                     only=[e["arch"] for e in escapes][:400])
-        devmap = {F.arch_key(e["arch"]): e for e in dr.edges}
-    for esc in escapes:
-        dev = classify(esc, devmap)
-        kinds = "+".join(sorted(set(e["kind"] for e in esc["arch"])))
-        key = "FileAccess:%s:%s" % (dev or "unexplained:" + kinds, F.SITE_X)
-        ctx.finding(key, "UntarDirectory changed %s outside the destination while extracting [%s]" % (
-            esc["outside_changes"], esc["archs"]), esc)
-    benign = [m for m in mism if not m.get("escape")]
-    if benign and not ctx.violations and not ctx.known_hits:
-        m = benign[0]
-        raise vf.Infra("binding mismatch without a property violation: extraction of [%s] gives %s/%s, spec says %s "
-                       "(%d such cases) - FileAccess.tla no longer describes tar.go" % (
-                           m["archs"], m["real_st"], m["diff"], m["want_st"], len(benign)))
+    # 2b. the ideal exploration stops where the ideal extractor reports an error; what the pinned extractors accepted
+    #     instead is explored under their deviations, and the archives that escape THERE are added as cases (expected
+    #     result = the ideal's, computed by following the ideal relation)
+    graph = F.XGraph(ideal.edges)
+    dev_escaping = 0
+    for d in devesc:
+        dev_escaping += F.x_add_cases(cases, graph, devesc[d])
+    # 3. replay every enumerated archive on every real extractor (tar.gz; the HTTP API's extractor also as plain tar)
+    tot = {"cases": 0, "mismatches": 0, "escapes": 0, "extract_errors": 0, "extract_ok": 0}
+    per_site, benign_all, sample = {}, [], None
+    for pkg, site, devname, formats in F.X_SITES:
+        for fmt in formats:
+            summ, mism, escapes = F.x_replay(ctx, cases, pkg=pkg, plain=(fmt == "plain"))
+            if summ.get("site") != site:
+                raise vf.Infra("harness bound to %r, expected %r" % (summ.get("site"), site))
+            per_site["%s(%s)" % (site, fmt)] = {k: summ[k] for k in tot}
+            for k in tot:
+                tot[k] += summ[k]
+            sample = sample or summ.get("sample")
+            # what does the site's deviation predict for the archives that escaped on the real code?  (followed in the
+            # deviation's relation; archives outside it, e.g. longer ones, are put to TLC directly)
+            devmap = {}
+            rest = []
+            for e in escapes:
+                pr = devgraph[devname].predict(e["arch"])
+                if pr is None:
+                    rest.append(e["arch"])
+                else:
+                    devmap[F.arch_key(e["arch"])] = {"st": pr[0], "t": pr[1]}
+            if rest:
+                dr = F.x_run(ctx, NAMES_T, TARGETS_T, 6, dev=(devname,), emit=True, invs=False, tag="MCXrel",
+                             only=rest[:300])
+                devmap.update({F.arch_key(e["arch"]): e for e in dr.edges})
+            for esc in escapes:
+                dev = classify(esc, devmap, devname)
+                kinds = "+".join(sorted(set(e["kind"] for e in esc["arch"])))
+                key = "FileAccess:%s:%s" % (dev or "unexplained:" + kinds, site)
+                ctx.finding(key, "%s (%s archive) changed %s outside the destination while extracting [%s]" % (
+                    site, "plain tar" if fmt == "plain" else "tar.gz", esc["outside_changes"], esc["archs"]), esc)
+            benign_all += [(site, fmt, m) for m in mism if not m.get("escape")]
+    if benign_all and not ctx.violations and not ctx.known_hits:
+        site, fmt, m = benign_all[0]
+        raise vf.Infra("binding mismatch without a property violation: %s (%s) on [%s] gives %s/%s, spec says %s "
+                       "(%d such cases) - FileAccess.tla no longer describes the extractor" % (
+                           site, fmt, m["archs"], m["real_st"], m["diff"], m["want_st"], len(benign_all)))
     # 4. binding self-test: a corrupted expectation must be noticed by the comparison
     probe = [c for c in cases if c["st"] == "open" and len(c["arch"]) >= 1][:40]
     s2, m2, _ = F.x_replay(ctx, probe, corrupt=probe[-1]["id"], name="untar_probe.json")
@@ -90,11 +121,13 @@ def run(ctx):
                               "<= %d entries%s; file modes and special entry types (devices, fifos) not modelled" % (
                                   ["/".join(n) for n in names], ["/".join(t) for t in TARGETS], maxe,
                                   "" if quick else " (+ 4 entries over the quick alphabet, 6 entries by simulation)"),
-                              "single extraction into an empty or missing destination; no concurrent modification"],
+                              "single extraction into an empty or missing destination; no concurrent modification",
+                              "sites bound: filetransfer.UntarDirectory (tar.gz) and the HTTP API upload extractor "
+                              "health.extractTarWithFallback (tar.gz and plain tar)"],
                  states=ideal.distinct, transitions=len(cases),
-                 traces_validated_against_impl=summ["cases"], exhaustive=True,
-                 replay_mismatches=summ["mismatches"], real_escapes=summ["escapes"],
-                 real_extract_errors=summ["extract_errors"], real_extract_ok=summ["extract_ok"],
-                 simulated_edges=sim_edges, deviations_caught={"DevLexicalOnly": dv.violated},
+                 traces_validated_against_impl=tot["cases"], exhaustive=True,
+                 replay_mismatches=tot["mismatches"], real_escapes=tot["escapes"],
+                 real_extract_errors=tot["extract_errors"], real_extract_ok=tot["extract_ok"], per_site=per_site,
+                 simulated_edges=sim_edges, deviations_caught=caught, cases_from_deviation_escapes=dev_escaping,
                  samples=[{"archive": c["arch"], "predicted": c["st"]} for c in cases[len(cases) // 2:len(cases) // 2 + 3]]
-                 + [summ.get("sample")])
+                 + [sample])
